@@ -380,6 +380,35 @@ def run_shard(ctx):
                         ctx.violation("corrupt-stream-returned", f"a stream corrupt after {n} valid octets was returned as {len(o.value.plaintext)} octets", {"n": n, "class": klass})
                     elif not o.is_a("JoseError", "ValueError"):
                         ctx.violation(f"corrupt-stream-escapes:{o.key}", f"a stream corrupt after {n} valid octets escaped as {o.exc!r}", {"n": n, "class": klass})
+        # streams cut short under a valid tag: whatever comes back must not be a shortened plaintext
+        if ctx.shard in (12, 13):
+            j = J.load()
+            for klass, n in (("text", 3000), ("constant", 100000), ("random", 5000), ("text", 200000), ("random", 255000)):
+                body = (b"a line of text that repeats, more or less. " * (n // 40 + 1))[:n] if klass == "text" else (b"\0" * n if klass == "constant" else rng.randbytes(n))
+                for framing in ("raw", "zlib"):
+                    c = zlib.compressobj(6, zlib.DEFLATED, -15 if framing == "raw" else 15)
+                    st = c.compress(body) + c.flush()
+                    for k in (1, 2, 3, 5, 9, 40, len(st) // 2):
+                        if k >= len(st):
+                            continue
+                        ctx.ev()
+                        b = g.make("compact", "A128GCM", [("dir", gen.new_oct(128), None)], b"", zip_=True, compressed=st[:-k])
+                        o = call(j.jwe.decrypt_compact, b.token, j.key(b.recs[0]["key"]), algorithms=["dir", "A128GCM", "DEF"])
+                        ctx.count("decrypts")
+                        ctx.count("incomplete_streams")
+                        ctx.nontrivial(("incomplete", klass, n, framing, k))
+                        got = len(o.value.plaintext) if o.ok else None
+                        ctx.cell("ref-incomplete-stream", framing, klass, "shortened" if (o.ok and got < n) else ("whole" if o.ok else o.etype))
+                        case = {"n": n, "class": klass, "framing": framing, "cut": k}
+                        if o.ok and got < n:
+                            ctx.violation("silently-truncated:incomplete-stream", f"a {framing} DEFLATE stream of a {n}-octet plaintext, cut {k} octets before its end, "
+                                          f"is accepted and {got} octets are returned as the plaintext", case)
+                        elif o.ok and o.value.plaintext != body:
+                            ctx.violation("incomplete-stream-other-plaintext", "an incomplete stream yields another plaintext", case)
+                        elif o.ok:
+                            ctx.open("stream-without-end-marker-but-whole-plaintext-accepted")
+                        elif not o.is_a("JoseError", "ValueError"):
+                            ctx.violation(f"incomplete-stream-escapes:{o.key}", f"an incomplete stream escaped as {o.exc!r}", case)
         # honest large plaintexts under the memory monitor
         if ctx.shard in (3, 4, 5, 6):
             klass = ["random", "constant", "text", "period64"][ctx.shard - 3]
